@@ -523,7 +523,14 @@ def replay(ctx, prop, ob, res):
         if k in out and out[k] != v:
             diffs[k] = {"engine": v if not isinstance(v, str) else v[:64], "real": out[k] if not isinstance(out[k], str) else out[k][:64]}
     rep["compared_locations"] = len([k for k in pred if k in out])
-    if diffs:
+    ext = sorted({d.name() for d in model.decls() if d.name().startswith("external.")})
+    if diffs and ext:
+        # the path calls a function outside the exported program (its result is an unconstrained symbol in the
+        # obligation): the model's choice for that result is not what the real callee returns, so the prediction is
+        # not comparable - the obligation still fails, without a failing input
+        rep.update(status="unconfirmed", diffs=diffs,
+                   reason="the failing path calls unmodelled external function(s) %s; their results are unconstrained in the obligation, so the model is not a concrete input" % ", ".join(e.split("!")[0] for e in ext)[:300])
+    elif diffs:
         rep.update(status="engine-disagreement", diffs=diffs)
     elif rep["compared_locations"] == 0:
         rep.update(status="unconfirmed", reason="nothing to compare")
